@@ -304,6 +304,10 @@ func (e *runEnv) configs(cs flightCase) (*tls.Config, *tls.Config) {
 	if cs.has("hrr") {
 		scfg.CurvePreferences = []tls.CurveID{tls.CurveP384}
 	}
+	// echkeys / echkeys2: an ECH-enabled server (one / two configs, ids 7 and 107, DHKEM(X25519), HKDF-SHA256, AES-128-GCM)
+	if cs.has("echkeys") || cs.has("echkeys2") {
+		scfg.EncryptedClientHelloKeys = echServerKeys(cs.has("echkeys2"))
+	}
 	for _, f := range cs.Flags {
 		// cs=c02f: the server offers exactly this TLS <= 1.2 cipher suite
 		if strings.HasPrefix(f, "cs=") {
